@@ -866,6 +866,21 @@ def whole_busy_set(ctx, rid, what=""):
                             cands.append(v)
             rel = [v for v in cands if any(isinstance(x, ast.Call) and last_name(x) == "locked_paths" for x in ast.walk(v))]
             if not rel:
+                # a busy set derived from the in-flight record instead: it must contain *every* path of every job
+                left_is_pn = "path_number" in ast.unparse(c.left) or (isinstance(c.left, ast.Name) and c.left.id in ("live", "pn", "pnum"))
+                rec = [v for v in cands if any(isinstance(x, ast.Attribute) and x.attr == "locked" and isinstance(x.value, ast.Name) and x.value.id == "self" for x in ast.walk(v))]
+                if left_is_pn and rec:
+                    n += 1
+                    covered.add(f.name)
+                    q = getattr(f, "_fq", f.name)
+                    for v in rec:
+                        comp = v if isinstance(v, (ast.ListComp, ast.SetComp, ast.GeneratorExp)) else next((x for x in ast.walk(v) if isinstance(x, (ast.ListComp, ast.SetComp, ast.GeneratorExp))), None)
+                        partial = comp is not None and len(comp.generators) == 1 and any(isinstance(x, ast.Subscript) and isinstance(x.slice, ast.Constant) and isinstance(x.slice.value, int) for x in ast.walk(comp.elt))
+                        if comp is not None and not partial and len(comp.generators) >= 2:
+                            ctx.ok(rid, c, f"{q}: `{short(c, 40)}` consults every path of every job of the in-flight record")
+                        else:
+                            ctx.bad(rid, c, f"{q}: the busy-path test `{short(c, 40)}` consults `{short(v, 50)}`: one path per in-flight job; the second path of a zero-swap job ([0+]) is treated as idle - it can be moved by the re-sort and credited weight while its job is still running{what}",
+                                    construct=f"{q}: busy set with one path per job: {short(v, 50)}")
                 continue
             n += 1
             covered.add(f.name)
@@ -1224,3 +1239,108 @@ def commit_every_step(ctx, rid, what=""):
         ctx.bad(rid, commits[0], f"treat_output can complete a step without writing restart.toml (the commit is conditional on {guards}): path files and the data file then run ahead of the restart file, and a crash followed by a restart replays steps - rows are appended twice, path numbers reused, jobs re-issued from a stale step{what}", construct="treat_output: conditional write_toml")
     else:
         ctx.ok(rid, commits[0], "every normal path through treat_output writes restart.toml")
+
+
+def positional_literal_kind(ctx, rid, rels, what=""):
+    """A literal passed positionally lands on the parameter its kind belongs to. For calls of
+    repository functions (all definitions of the name agree on the parameter list): a bool literal
+    in a positional slot whose parameter has a default must meet a bool default; meeting `None` /
+    a number while a *later* parameter has a bool default means the flag slipped one position
+    (`f(a, b, False)` with `def f(a, b, step=None, append=True)` sets step, not append)."""
+    tree = ctx.tree
+    sigs = {}
+    for m, q, f in tree.all_funcs():
+        ps = f.args.posonlyargs + f.args.args
+        is_method = "." in q and ps and ps[0].arg in ("self", "cls")
+        names = [a.arg for a in (ps[1:] if is_method else ps)]
+        defaults = [None] * (len(names) - len(f.args.defaults)) + list(f.args.defaults) if len(f.args.defaults) <= len(names) else None
+        if defaults is None or f.args.vararg:
+            sigs.setdefault(f.name, set()).add(None)
+            continue
+        sigs.setdefault(f.name, set()).add((tuple(names), tuple(ast.dump(d) if d is not None else "" for d in defaults), bool(is_method)))
+    n = 0
+    for m, q, f in tree.all_funcs(rels):
+        for c in [x for x in walk_local(f) if isinstance(x, ast.Call)]:
+            nm = c.func.attr if isinstance(c.func, ast.Attribute) else (c.func.id if isinstance(c.func, ast.Name) else None)
+            ss = sigs.get(nm)
+            if not ss or len(ss) != 1 or None in ss or nm.startswith("__"):
+                continue
+            names, dflts, is_method = next(iter(ss))
+            if is_method and not isinstance(c.func, ast.Attribute):
+                continue
+            moved = getattr(c, "_kw_moved", False)
+            for i, a in enumerate(c.args):
+                if i >= len(names) or not dflts[i]:
+                    continue
+                if not (isinstance(a, ast.Constant) and isinstance(a.value, bool)):
+                    continue
+                if moved:
+                    continue  # the loader moved a keyword argument into this slot: it was given by name
+                n += 1
+                d = dflts[i]
+                is_bool_default = d in (ast.dump(ast.Constant(value=True)), ast.dump(ast.Constant(value=False)))
+                later_bool = [names[j] for j in range(i + 1, len(names)) if dflts[j] in (ast.dump(ast.Constant(value=True)), ast.dump(ast.Constant(value=False)))]
+                if is_bool_default:
+                    ctx.ok(rid, c, f"{q}: the flag {a.value} is passed to the flag parameter `{names[i]}` of {nm}()")
+                elif later_bool:
+                    ctx.bad(rid, c, f"{q} passes the literal {a.value} positionally to {nm}(): it binds to `{names[i]}` (default not a flag) while the flag parameter `{later_bool[0]}` keeps its default{what}", construct=f"{q}: {short(c, 60)}")
+                else:
+                    ctx.ok(rid, c, f"{q}: literal {a.value} for `{names[i]}` of {nm}()", nontrivial=False)
+    return n
+
+
+_CASE_NORMALISERS = ("lower", "upper", "casefold")
+
+
+def case_normalised_selectors(ctx, rid, rels=None, what=""):
+    """A selector string that is normalised for one decision is normalised for all of them
+    (contradiction rule). In a function that looks a value up after `.lower()` / `.upper()` /
+    `.casefold()` (so any spelling of the name is accepted), every other string test of the same
+    value - `==` / `in` against literals, `.startswith()` / `.endswith()`, use as a mapping key -
+    goes through a normalisation too. A raw test beside a normalised lookup means one spelling
+    selects the class while the raw test fails: the two decisions disagree about what was chosen."""
+    tree = ctx.tree
+    n = 0
+    for m, q, f in tree.all_funcs(rels):
+        bases = {}
+        for c in walk_local(f):
+            if isinstance(c, ast.Call) and isinstance(c.func, ast.Attribute) and c.func.attr in _CASE_NORMALISERS and not c.args:
+                b = c.func.value
+                if isinstance(b, ast.Constant):
+                    continue
+                bases.setdefault(ast.unparse(b), []).append(c)
+        if not bases:
+            continue
+        # a name rebound to its own normalisation is normalised from there on
+        for st in walk_local(f):
+            if isinstance(st, ast.Assign) and len(st.targets) == 1 and isinstance(st.targets[0], ast.Name):
+                v = st.value
+                if isinstance(v, ast.Call) and isinstance(v.func, ast.Attribute) and v.func.attr in _CASE_NORMALISERS and ast.unparse(v.func.value) == st.targets[0].id:
+                    bases.pop(st.targets[0].id, None)
+        for key, uses in bases.items():
+            n += 1
+            receivers = {id(c.func.value) for c in uses}
+            raw = []
+            for x in walk_local(f):
+                if isinstance(x, ast.Compare) and len(x.ops) == 1 and isinstance(x.ops[0], (ast.Eq, ast.NotEq, ast.In, ast.NotIn)):
+                    l, r = x.left, x.comparators[0]
+                    for side, other in ((l, r), (r, l)):
+                        if id(side) in receivers or ast.unparse(side) != key:
+                            continue
+                        if side is r and isinstance(x.ops[0], (ast.In, ast.NotIn)):
+                            continue  # `lit in value`: a substring test of the raw text
+                        lits = [other] if isinstance(other, ast.Constant) else (list(other.elts) if isinstance(other, (ast.List, ast.Tuple, ast.Set)) else None)
+                        if lits is None and isinstance(x.ops[0], (ast.In, ast.NotIn)) and isinstance(other, (ast.Name, ast.Attribute)):
+                            raw.append(x)  # membership of the raw text in a table
+                        elif lits and all(isinstance(e, ast.Constant) and isinstance(e.value, str) for e in lits):
+                            raw.append(x)
+                elif isinstance(x, ast.Call) and isinstance(x.func, ast.Attribute) and x.func.attr in ("startswith", "endswith") and id(x.func.value) not in receivers and ast.unparse(x.func.value) == key:
+                    raw.append(x)
+                elif isinstance(x, ast.Subscript) and isinstance(x.ctx, ast.Load) and ast.unparse(x.slice) == key and id(x.slice) not in receivers and isinstance(x.value, (ast.Name, ast.Attribute)) and ast.unparse(x.value).isupper():
+                    raw.append(x)  # TABLE[value]
+            if raw:
+                x = raw[0]
+                ctx.bad(rid, x, f"{q} normalises `{key}` with .{uses[0].func.attr}() for `{short(enclosing_stmt(uses[0]), 50)}` but tests the raw text in `{short(x, 60)}`: a spelling the lookup accepts (e.g. another capitalisation) fails this test, so the two decisions disagree about which class was selected{what}", construct=f"{q}: raw test of {key}: {short(x, 50)}")
+            else:
+                ctx.ok(rid, uses[0], f"{q}: every string test of `{key}` goes through the same case normalisation ({len(uses)} use(s))")
+    return n
